@@ -8,7 +8,8 @@ import decsuite as ds
 
 THEOREMS = ["C10.c10_lookahead", "C10.c10_pulls_bounded", "C10.c10_source", "lookahead_facts", "runWalker_acct",
             "MsgWF.c10_shown", "MsgWF.c01_command", "MsgWF.c01_response", "MsgWF.c09_stream",
-            "C10.c10_prefix_stable", "C10.c10_prefix_exact", "runWalker_tr"]
+            "C10.c10_prefix_stable", "C10.c10_prefix_exact", "runWalker_tr",
+            "C10.c10_stream_prefix_stable", "stream_prefix_stable", "runWalker_srb"]
 SOURCES = ["bytes", "bytearray", "list", "tuple", "iterator", "generator"]
 
 
@@ -101,5 +102,6 @@ def run(ctx, replay_case):
     })
 
 
-PROP = {"targets": ["TpmProofs.Props.C10"], "module": "TpmProofs.Props.C10", "theorems": THEOREMS, "run": run,
-        "assumptions": ["prefix-stability and 'complete fields before depleted' are monitored + tied by correspondence; the look-ahead bound is a theorem for every input"]}
+PROP = {"targets": ["TpmProofs.Props.C05S"], "module": "TpmProofs.Props.C05S", "theorems": THEOREMS, "run": run,
+        "assumptions": ["the look-ahead bound and prefix stability (structures, commands, responses, streams) are theorems for every input and every cut; "
+                        "also monitored on the real code over six source kinds and tied by correspondence"]}
